@@ -134,6 +134,9 @@ def converters(m):
         "html-table-url": lambda: m.create_markdown(plugins=["table", "url"]),
         "html-table-url-noescape": lambda: m.create_markdown(escape=False, plugins=["table", "url"]),
         "mistune.html-equivalent": lambda: m.create_markdown(escape=False, plugins=["strikethrough", "footnotes", "table", "speedup"]),
+        # renderer options that are collections: every conversion must see the whole collection
+        "html-allow-list": lambda: m.create_markdown(renderer=m.HTMLRenderer(allow_harmful_protocols=["data:", "file:"]), plugins=["url"]),
+        "html-allow-tuple": lambda: m.create_markdown(renderer=m.HTMLRenderer(escape=False, allow_harmful_protocols=("data:text/", "vbscript:"))),
     }
 
 
@@ -148,9 +151,15 @@ STATEFUL = [
 ]
 
 
+LINK_DOCS = ["[a](/plain) then [d](data:text/plain,x)\n", "[f](file:///etc/hosts) ![i](data:image/png;base64,AA==)\n", "<data:text/html,hi> and [j](javascript:x)\n",
+             "[r]\n\n[r]: data:text/csv,1 'T'\n", "![p](file:/p.png) [v](vbscript:q) [D](DATA:text/plain,y)\n", "plain text only\n", "[k](https://e.x/) [d2](data:,z)\n"]
+
+
 def history_docs(r, k, config=None):
     docs = []
     pool = STATEFUL
+    if config and config.startswith("html-allow"):
+        return [r.choice(LINK_DOCS) if r.random() < 0.7 else r.choice(STATEFUL) for _ in range(k)]
     if config and "directives" in config:
         pool = [d for d in STATEFUL if ("{" in d or ".. " in d or "===" in d or "---" in d or "--\n" in d)]
     for _ in range(k):
